@@ -6,17 +6,17 @@ From Httoop Require Import Model.Parser Proofs.ParserEsc Proofs.ParserFuel Corr.
    octets received and the fragmentation, provided the callees raise none.  The hypothesis is exactly
    the list of sub-parsers that are parameters of the model; it is validated against the implementation
    on every run (partial in that respect). *)
-Theorem C03_contained : forall (C : callees) (k : kind), callees_no_escape C ->
-  forall s data s' ms e, parse C k s data = (s', ms, Some e) -> e <> EEscape.
+Theorem C03_contained : forall (cfg : config) (C : callees) (k : kind), callees_no_escape C ->
+  forall s data s' ms e, parse cfg C k s data = (s', ms, Some e) -> e <> EEscape.
 Proof. exact parse_no_escape. Qed.
 Print Assumptions C03_contained.
 
 (* Bounded work: the message loop needs at most (buffer length + 1) turns and the chunk loop one turn
    per chunk, each turn consuming at least one octet -- the explicit fuel is never exhausted, for any
    fragmentation of any stream (so the chunk loop is iterative, not nested per chunk). *)
-Theorem C03_loop_fuel_suffices : forall (C : callees) (k : kind) (frags : list bytes),
-  match feed_all C k init frags with (_, _, oe) => oe <> Some EFuel end.
-Proof. intros C k frags. apply feed_all_never_out_of_fuel. exact wf_init. Qed.
+Theorem C03_loop_fuel_suffices : forall (cfg : config) (C : callees) (k : kind) (frags : list bytes),
+  match feed_all cfg C k init frags with (_, _, oe) => oe <> Some EFuel end.
+Proof. intros cfg C k frags. apply feed_all_never_out_of_fuel. exact wf_init. Qed.
 Print Assumptions C03_loop_fuel_suffices.
 
 Theorem C03_chunk_loop_fuel_suffices : forall (C : callees) i b e,
@@ -25,8 +25,8 @@ Proof. exact chunks_fuel_ok. Qed.
 Print Assumptions C03_chunk_loop_fuel_suffices.
 
 (* every completed message consumed at least one octet of the buffer *)
-Theorem C03_progress : forall (C : callees) (k : kind) s, wf_st s ->
-  match turn_of C k s with
+Theorem C03_progress : forall (cfg : config) (C : callees) (k : kind) s, wf_st s ->
+  match turn_of cfg C k s with
   | TErr e => e <> EFuel
   | TMsg s' _ => (length (buf s') < length (buf s))%nat /\ wf_st s'
   | TBlocked s' => wf_st s'
@@ -39,5 +39,5 @@ Definition ex_tables : tables := {|
   t_start := [(X "474554202f20485454502f312e31", SlOk {| p11 := true; nobody := true |})];
   t_hdrs := []; t_decode := []; t_2047 := []; t_trailer := [] |}.
 Example C03_example :
-  snd (parse (callees_of ex_tables) Server init (X "474554202f20485454502f312e310d0a4e6f436f6c6f6e0d0a0d0a")) = Some (EHttp 400).
+  snd (parse real (callees_of ex_tables) Server init (X "474554202f20485454502f312e310d0a4e6f436f6c6f6e0d0a0d0a")) = Some (EHttp 400).
 Proof. vm_compute. reflexivity. Qed.
